@@ -131,3 +131,44 @@ prop("C08", level="other", stages=[tierb_c08.stage, _c08_async],
                  "instants are 1/ratio apart (C06 obligations). The sinusoid error bound is the classical consequence and is not machine-checked.",
      assumptions=["float literals of the coefficient tables denote the decimals / quotients written in the source (1-ulp rounding of 1/3, 1/6, 1/120, 1/5040 ignored)",
                   "reproduction 'to rounding': floating-point evaluation error of the polynomial is not bounded here"] + list(tierb_async.ASSUME_TEXT))
+
+from . import tierb_flow  # noqa: E402
+
+prop("C11", level="other", stages=[tierb_flow.c11_stage],
+     technique="syntactic channel-frame obligations on the parsed bodies + Kani contract of validate_buffers",
+     explanation="Channel frame: inside every loop over channels each access to per-channel storage is indexed by the loop's own channel variable and the caller's "
+                 "buffers are touched only under that channel's mask bit; no value is carried from one channel's iteration to the next; control flow, control state and "
+                 "returned counts outside the channel loops do not mention the mask; validate_buffers inspects active channels only (Kani contract); resample_unit "
+                 "rewrites all shared FFT work buffers before each transform. Together with the index obligations of C03 this gives per-channel independence and "
+                 "untouched masked outputs; it is a frame argument, not a relational proof on values.",
+     trusted_base=["vlib/tierb_flow.py classification of per-channel storage and channel loops"])
+prop("C17", level="other", stages=[tierb_flow.c17_stage],
+     technique="syntactic information-flow obligations (taint from sample storage and the sample type T to control sinks)",
+     explanation="Control half of the property only: no value read from sample storage and nothing depending on the type parameter T (T::*, size_of::<T>, coercions) "
+                 "reaches a branch or loop condition, an index or range, an assignment to control state or a returned count, in any method of the seven types, "
+                 "make_interpolator's size computation and the FFT constructors. Hence f32 and f64 instantiations take identical control decisions and return "
+                 "identical counts. The numerical half (outputs equal to single precision) is not decided.",
+     trusted_base=["vlib/tierb_flow.py taint rules"])
+prop("C09", level="other", stages=[tierb_flow.c09_stage],
+     technique="syntactic deny-list obligation over the real-time methods and everything they call in the crate",
+     explanation="No allocating or deallocating construct (vec!/format!, Vec/String/Box/Arc constructors, to_vec/collect/push/resize/clone of buffers, buffer "
+                 "replacement, realfft's allocating process()) occurs in process_into_buffer, the setters, reset, the getters of the seven types, or in the crate "
+                 "functions they call. This is a closed-world syntactic frame obligation on the crate's own code; realfft's process_with_scratch is assumed "
+                 "allocation-free with adequate scratch (its documented contract); the SIMD interpolators and `log` feature are not covered.",
+     trusted_base=["the deny list in vlib/tierb_flow.py", "realfft::process_with_scratch does not allocate"])
+
+
+def _c16_getter_consistency(scratch, tier, log):
+    """the wrappers size their buffers with the getters: the core must validate against exactly those values"""
+    return [o for o in tierb_c13.stage(scratch, tier, log) if "validates_advertised" in o.name]
+_c16_getter_consistency.__name__ = "tierb_c16_getters"
+PROPS["C16"]["stages"].append(_c16_getter_consistency)
+
+def _c14_async(scratch, tier, log):
+    return tierb_async.run_all(scratch, what=("delay", "reset"))
+_c14_async.__name__ = "tierb_async_C14"
+PROPS["C14"]["stages"].append(_c14_async)
+PROPS["C14"].setdefault("assumptions", []).extend(tierb_async.ASSUME_TEXT[:2] + [
+    "C14 is decided in a structural form: evaluation instants (first instant -L/2 + 1/ratio from the constructor/reset obligations, spacing 1/ratio from the C06 "
+    "obligations) against the reported value; that the polynomial / FFT kernel is centred on its evaluation instant is the C08 window obligation resp. an assumption (FFT)",
+    "the sinc resamplers are not claimed (known finding F7)"])
